@@ -26,6 +26,14 @@ import Model.Session
 
   `Fix` selects between the code as it was found (`Fix.legacy`) and the repairs proposed for
   defects 9, 10+11, 14, 15 (`Fix.repaired`, the model of the code in /repo once the patches are in).
+
+  Packet ids (patch 02-client-unused-packet-id, not switchable by `Fix`): the exported methods take
+  their id from `Client.nextID()` — `Session.NextID()`, then `Session.LookupPacket(Outgoing, id)`,
+  again while a packet is found, at most 65535 times, else `ErrPacketIDsExhausted` (returned without
+  `cleanup`); a failing lookup is a session failure like the others (`cleanup(err, true, false)`).
+  States `Api.rID r n` / `Api.rLook r id n`, labels `sNextID id` / `sLookup .outgoing id res`.  The
+  only lookups of the outgoing store are these, the only lookups of the incoming store are those of
+  `processPubrel`: `threadOf` attributes `sLookup` by its direction.
 -/
 namespace Cl
 
@@ -123,15 +131,16 @@ inductive RetV where
   | ok                       -- nil error (Disconnect, Close)
   | errAlready | errDial | errNotConnected
   | err                      -- any other error (send / session / close)
+  | errExhausted             -- `ErrPacketIDsExhausted`: every packet id has a stored outgoing packet
   deriving DecidableEq, Repr
 
 inductive RetK where
-  | fut | ok | errAlready | errDial | errNotConnected | err
+  | fut | ok | errAlready | errDial | errNotConnected | err | errExhausted
   deriving DecidableEq, Repr
 
 def RetV.kind : RetV → RetK
   | .fut _ => .fut | .ok => .ok | .errAlready => .errAlready | .errDial => .errDial
-  | .errNotConnected => .errNotConnected | .err => .err
+  | .errNotConnected => .errNotConnected | .err => .err | .errExhausted => .errExhausted
 
 inductive After where | ret | endKill
   deriving DecidableEq, Repr
@@ -139,7 +148,11 @@ inductive After where | ret | endKill
 inductive Api where
   | idle
   | cChk | cDial | cReset | cFut | cSend | cGo
-  | rChk (r : Req) | rID (r : Req) | rPut (r : Req) (id : UInt16) | rCheck (r : Req) (id : UInt16) (h : Nat)
+  | rChk (r : Req)
+  -- `Client.nextID()`: `n` iterations of the loop are left (this one included); `rLook`: `NextID`
+  -- returned `id`, `LookupPacket(Outgoing, id)` is next
+  | rID (r : Req) (n : Nat) | rLook (r : Req) (id : UInt16) (n : Nat)
+  | rPut (r : Req) (id : UInt16) | rCheck (r : Req) (id : UInt16) (h : Nat)
   | rSave (r : Req) (id : UInt16) (h : Nat) | rSend (r : Req) (id : UInt16) (h : Nat)
   | rDone (r : Req) (id : UInt16) (h : Nat)
   | dChk (await : Bool) | dAwait | dSet | dSend
@@ -636,7 +649,7 @@ def stepApi (fx : Fix) (s : St) (l : Label) : Option St :=
   | .rChk r =>
     if l ≠ .tau .api then none else
     if s.state ≠ .connected then some { s with api := .ret .errNotConnected }
-    else if r.needsID then some { s with api := .rID r } else some { s with api := .rPut r 0 }
+    else if r.needsID then some { s with api := .rID r 65535 } else some { s with api := .rPut r 0 }
   | .dChk aw =>
     if l ≠ .tau .api then none else
     if s.state ≠ .connected then some { s with api := .ret .errNotConnected }
@@ -673,10 +686,25 @@ def stepApi (fx : Fix) (s : St) (l : Label) : Option St :=
                      ping := if s.keepAlive then .run else .notStarted, api := .ret (.fut h) }
      | none => none)
   -- Publish / Subscribe / Unsubscribe
-  | .rID r =>
+  -- `Client.nextID()`: `for i := 0; i < 65535; i++ { id := NextID(); pkt, err := LookupPacket(Outgoing, id); … }`
+  | .rID r n =>
     (match l with
      | .sNextID id =>
-       if id ≠ s.sess.nextID.1 then none else some { s with sess := s.sess.nextID.2, api := .rPut r id }
+       if id ≠ s.sess.nextID.1 then none else some { s with sess := s.sess.nextID.2, api := .rLook r id n }
+     | _ => none)
+  | .rLook r id n =>
+    (match l with
+     | .sLookup .outgoing id' res =>
+       if id' ≠ id then none else
+       (match res with
+        | .fail => some (s.apiFail true)                       -- `return 0, c.cleanup(err, true, false)`
+        | .found o =>
+          if o ≠ s.sess.lookupPacket .outgoing id then none else
+          (match o with
+           | none => some { s with api := .rPut r id }         -- the id is not in use
+           | some _ =>
+             -- still in use: next iteration, or `ErrPacketIDsExhausted` (no cleanup) after the last one
+             if n ≤ 1 then some { s with api := .ret .errExhausted } else some { s with api := .rID r (n - 1) }))
      | _ => none)
   | .rPut r id =>
     if l ≠ .tau .api then none else
@@ -753,7 +781,10 @@ def renew (s : St) : St := { sess := s.sess, out := s.out, cbs := s.cbs, futs :=
 def threadOf : Label → Option Th
   | .aConnect .. | .dial _ | .aReq _ | .aDisconnect _ | .aClose | .aRet _ | .sNextID _ => some .api
   | .sSave t .. | .sDel t .. | .sReset t _ | .send t .. | .close t _ | .cbErr t | .tau t => some t
-  | .sLookup .. | .sAll _ | .recv _ | .recvErr | .cb .. => some .proc
+  -- the outgoing store is looked up by the exported methods only (`Client.nextID`), the incoming
+  -- store by the processor only (`processPubrel`)
+  | .sLookup .outgoing _ _ => some .api
+  | .sLookup .incoming _ _ | .sAll _ | .recv _ | .recvErr | .cb .. => some .proc
   | .kMissing => some .ping
   | .newClient => none
 
